@@ -699,13 +699,29 @@ func (o netOp) String() string {
 }
 
 func drawNetOps(t *Tape, n, nin int, label string) []netOp {
+	return drawNetOpsSized(t, n, nin, -1, label)
+}
+
+// drawNetOpsSized: with nsens >= 0 (the number of sensors, bias nodes included) a share of the loads has another legal
+// size: one value per sensor (the caller supplies the bias values, which need not be one) or more values than there are
+// sensors (the standard network takes the first ones, the fast solver rejects the call).
+func drawNetOpsSized(t *Tape, n, nin, nsens int, label string) []netOp {
 	var ops []netOp
 	for i := 0; i < n; i++ {
 		o := netOp{kind: t.Pick(label+".op", 4, 2, 2, 3, 2, 1, 1, 2, 1, 1)}
 		switch o.kind {
 		case nopLoad:
 			sub := t.Sub(label + ".vec")
-			o.vec = make([]float64, nin)
+			size := nin
+			if nsens >= 0 {
+				switch t.Pick(label+".vecsize", 6, 1, 1) {
+				case 1:
+					size = nsens
+				case 2:
+					size = nsens + 1 + t.Draw(label+".vecextra", 2)
+				}
+			}
+			o.vec = make([]float64, size)
 			zero := t.Chance(label+".zerovec", 1, 6) // the all-zero pattern (XOR's {0,0}) is an input vector like any other
 			for j := range o.vec {
 				if !zero {
@@ -877,8 +893,18 @@ func scenarioC13(c *RunCtx) {
 			c.Count("probe.net.cyclic")
 		}
 		nin := ref.NumPlainInputs()
-		hist := drawNetOps(t, t.Range("history", 0, maxOps), nin, "hist")
-		seq := drawNetOps(t, t.Range("sequence", 1, maxOps), nin, "seq")
+		nsens := len(ref.Inputs)
+		if nsens != nin {
+			c.Count("probe.net.bias_node")
+		}
+		hist := drawNetOpsSized(t, t.Range("history", 0, maxOps), nin, nsens, "hist")
+		seq := drawNetOpsSized(t, t.Range("sequence", 1, maxOps), nin, nsens, "seq")
+		for _, o := range append(append([]netOp(nil), hist...), seq...) {
+			if o.kind == nopLoad && len(o.vec) != nin {
+				c.Count("probe.load_other_size")
+				break
+			}
+		}
 		if len(hist) > 0 {
 			c.Count("probe.history.nonempty")
 		}
